@@ -178,70 +178,7 @@ def run(prog: Program, ctx: Ctx) -> None:  # noqa: PLR0912,PLR0915
         p = Obj(pcls, {"name": "x", "default": default, "annotation": ann, "kind": kind, "docstring": None, "function": None})
         got = it.truth(it.getattr(p, "required"))
         ctx.ob("R3", f"required|default={default!r}|annotation={ann}|{kind}", got == (default is None), f"Parameter(default={default!r}).required = {got}", where(prog.lookup_method(pcls, 'required')[0]))
-    hf = prog.function("_griffe.agents.visitor.Visitor.handle_function")
-    for c in calls_in(hf.node):
-        if prog.resolve(hf.module, dotted(c.func) or "") == "_griffe.models.Function":
-            r = kwarg(c, "returns")
-            ctx.ob("R3", key(hf, "returns"), r is not None and "node.returns" in unparse(r), f"Function(returns=...) is built from node.returns ({unparse(r) if r else None})", where(hf, c))
-            p_ = kwarg(c, "parameters")
-            ctx.ob("R3", key(hf, "parameters"), p_ is not None and unparse(p_) == "parameters", "Function(parameters=...) receives the list built from get_parameters", where(hf, c))
-
-    # ------------------------------------------------------------------ R4 overload / setter typestate
-    ctx.rule("R4", "handle_function: an overload is appended (in order) to the pending overload list and not set as member; a setter/deleter is "
-                   "attached to the existing property and not set as member; a plain function is set as member and then receives the pending "
-                   "overloads, which are removed from the pending table")
-    cfg = cfg_of(hf)
-    idx = node_index(hf)
-
-    def nodes_where(pred):
-        out = []
-        for n in walk_no_nested(hf.node):
-            if pred(n):
-                out += [(n, x) for x in idx.get(id(n), [])]
-        return out
-
-    sm = nodes_where(lambda n: isinstance(n, ast.Call) and isinstance(n.func, ast.Attribute) and n.func.attr == "set_member" and len(n.args) == 2 and unparse(n.args[1]) == "function")
-    ap = nodes_where(lambda n: isinstance(n, ast.Call) and isinstance(n.func, ast.Attribute) and n.func.attr in ("append", "insert", "extend") and "overloads" in unparse(n.func.value)
-                     and n.args and unparse(n.args[-1]) == "function")
-    st = nodes_where(lambda n: isinstance(n, ast.Assign) and unparse(n.value) == "function" and isinstance(n.targets[0], ast.Attribute) and n.targets[0].attr in ("setter", "deleter"))
-    ctx.ob("R4", key(hf, "sites"), len(sm) == 1 and len(ap) == 1 and len(st) == 2, f"one set_member, one overload append, setter+deleter stores (found {len(sm)}, {len(ap)}, {len(st)})", where(hf))
-    for n, x in sm:
-        a = cfg.dominated_by_fact(x, lambda at, tr: not tr and unparse(at) == "overload")
-        b = cfg.dominated_by_fact(x, lambda at, tr: not tr and unparse(at) == "property_function")
-        ctx.ob("R4", key(hf, "set_member-only-plain"), a and b, "set_member(function) is reached only when it is neither an overload nor a setter/deleter (the implementation/property is not replaced)", where(hf, n))
-    for n, x in ap:
-        ctx.ob("R4", key(hf, "overload-appended"), cfg.dominated_by_fact(x, lambda at, tr: tr and unparse(at) == "overload") and n.func.attr == "append",
-               "an @overload signature is appended (declaration order) to the pending list", where(hf, n))
-    for n, x in st:
-        which = n.targets[0].attr
-        ok = cfg.dominated_by_fact(x, lambda at, tr, which=which: tr and unparse(at) == f"property_function == '{which}'")
-        ctx.ob("R4", key(hf, f"{which}-attached"), ok, f"`.{which} = function` runs exactly on the {which} path", where(hf, n))
-        recv = unparse(n.targets[0].value)
-        defs = [s for s in walk_no_nested(hf.node) if isinstance(s, (ast.Assign, ast.AnnAssign)) and unparse(s.targets[0] if isinstance(s, ast.Assign) else s.target) == recv]
-        ok2 = len(defs) == 1 and "members[node.name]" in unparse(defs[0].value).replace(" ", "")
-        ctx.ob("R4", key(hf, f"{which}-on-existing-property"), ok2, f"the {which} is attached to the member already stored under the same name", where(hf, n))
-    # the setter/deleter scan must look at every decorator: a non-matching decorator is skipped, it does not end the scan
-    gbp = prog.function("_griffe.agents.visitor.Visitor.get_base_property")
-    for lp in [n for n in walk_no_nested(gbp.node) if isinstance(n, ast.For) and "decorators" in unparse(n.iter)]:
-        early = [n for n in ast.walk(lp) if isinstance(n, ast.Break) or (isinstance(n, ast.Return) and (n.value is None or (isinstance(n.value, ast.Constant) and n.value.value is None)))]
-        ctx.ob("R4", key(gbp, "scan-all-decorators"), not early,
-               "the scan over decorators never stops at a non-matching one (a decorator stacked above @prop.setter must not hide it)" if not early else
-               f"the decorator scan ends early (`{norm(early[0])}`): a decorator stacked above @prop.setter hides the setter and the property is replaced", where(gbp, lp))
-    ov_disc = [s for s in walk_no_nested(hf.node) if isinstance(s, ast.AugAssign) and unparse(s.target) == "overload" and isinstance(s.op, ast.BitOr)]
-    ctx.ob("R4", key(hf, "overload-detection"), len(ov_disc) == 1 and "typing_overload" in unparse(ov_disc[0].value) and "callable_path" in unparse(ov_disc[0].value),
-           "a function is an overload when any decorator's callable path is in typing_overload", where(hf))
-    hand = nodes_where(lambda n: isinstance(n, ast.Assign) and isinstance(n.targets[0], ast.Attribute) and n.targets[0].attr == "overloads" and unparse(n.targets[0].value) == "function")
-    dele = nodes_where(lambda n: isinstance(n, ast.Delete) and "overloads" in unparse(n))
-    ctx.ob("R4", key(hf, "hand-over-sites"), len(hand) == 1 and len(dele) == 1, "pending overloads are handed to the implementation and dropped from the table", where(hf))
-    if sm and hand and dele:
-        sm_nodes = {x for _n, x in sm}
-        for n, x in hand:
-            ctx.ob("R4", key(hf, "hand-over-after-set_member"), cfg.dominated_by_node(x, lambda y: y in sm_nodes), "overloads are attached to the function that was just set as member", where(hf, n))
-            ctx.ob("R4", key(hf, "hand-over-source"), "overloads[function.name]" in unparse(n.value).replace(" ", ""), "the pending list is looked up under the function's own name", where(hf, n))
-        h_nodes = {x for _n, x in hand}
-        for n, x in dele:
-            ctx.ob("R4", key(hf, "drop-after-hand-over"), cfg.dominated_by_node(x, lambda y: y in h_nodes), "the pending entry is removed only after it was handed over", where(hf, n))
-
+    # (what handle_function passes to Function(...), and the overload / setter / deleter handling, are decided on behaviour by the definition table R5)
     _definition_table(prog, ctx)
 
 
@@ -255,6 +192,11 @@ DEFS = {
     "classmethod": "@classmethod\ndef {n}(cls, a): ...",
     "overloaded": "@typing.overload\ndef {n}(x: int) -> int: ...\n@typing.overload\ndef {n}(x: str) -> str: ...\ndef {n}(x): ...",
     "property with setter": "@property\ndef {n}(self): ...\n@{n}.setter\ndef {n}(self, value): ...",
+    "property with setter and deleter": "@property\ndef {n}(self): ...\n@{n}.setter\ndef {n}(self, value): ...\n@{n}.deleter\ndef {n}(self): ...",
+    "setter under another decorator": "@property\ndef {n}(self): ...\n@passthrough\n@{n}.setter\ndef {n}(self, value): ...",
+    "overloaded (typing_extensions)": "@typing_extensions.overload\ndef {n}(x: int) -> int: ...\n@typing_extensions.overload\ndef {n}(x: str, y: int) -> str: ...\ndef {n}(x, y=0): ...",
+    "annotated function": "def {n}(self, a: A, b: B = d1, *c: C, e: E = d2, **g: G) -> R: ...",
+    "overloads without implementation": "@typing.overload\ndef {n}(x: int) -> int: ...\n@typing.overload\ndef {n}(x: str, y: int) -> str: ...",
 }
 
 
@@ -271,6 +213,9 @@ def _definition_table(prog: Program, ctx: Ctx) -> None:
     it = Interp(prog, max_depth=40, max_steps=2_000_000)
     vf = prog.function("_griffe.agents.visitor.Visitor.visit_functiondef")
     va = prog.function("_griffe.agents.visitor.Visitor.visit_asyncfunctiondef")
+
+    def _txt(e: object) -> str | None:
+        return it._str(e) if isinstance(e, Obj) else (e if isinstance(e, str) else None)
 
     def visit(srcs: list[str]) -> dict | str:
         klass = Obj(prog.cls(f"{M}.Class"), {"name": "K", "path": "m.K", "members": {}, "parent": None, "overloads": collections.defaultdict(list),
@@ -307,9 +252,15 @@ def _definition_table(prog: Program, ctx: Ctx) -> None:
                 entry["parameters"] = [(q.attrs["name"], q.attrs["kind"].name.split(".")[-1],
                                         q.attrs.get("default") is not None and not q.attrs["kind"].name.split(".")[-1].startswith("var_")) for q in plist]
                 entry["overloads"] = [[q.attrs["name"] for q in it._iterate(ov.attrs["parameters"])] for ov in (o.attrs.get("overloads") or [])]
+                entry["annotations"] = [(q.attrs["name"], _txt(q.attrs.get("annotation")), None if q.attrs["kind"].name.split(".")[-1].startswith("var_") else _txt(q.attrs.get("default")))
+                                        for q in plist]
+                entry["returns"] = _txt(o.attrs.get("returns"))
             else:
                 entry["setter"] = o.attrs.get("setter") is not None
+                entry["deleter"] = o.attrs.get("deleter") is not None
             out[name] = entry
+        # signatures still waiting for their implementation (stub-style overloads stay there; implemented ones must have been handed over)
+        out["<pending overloads>"] = {k: [[q.attrs["name"] for q in it._iterate(ov.attrs["parameters"])] for ov in v] for k, v in klass.attrs["overloads"].items() if v}
         return out
 
     alone = {}
@@ -318,22 +269,36 @@ def _definition_table(prog: Program, ctx: Ctx) -> None:
         alone[dname] = got
         # reference: CPython's own view of the same class body
         ns: dict = {}
-        exec(compile("import functools, typing\nclass K:\n" + "\n".join("    " + ln for ln in tmpl.format(n="x").splitlines()), "<def>", "exec", dont_inherit=True), ns)  # noqa: S102
+        exec(compile("from __future__ import annotations\nimport functools, typing\ntyping_extensions = typing\nd1 = 'd1'\nd2 = 'd2'\ndef passthrough(f): return f\nclass K:\n"  # noqa: S102
+                     + "\n".join("    " + ln for ln in tmpl.format(n="x").splitlines()), "<def>", "exec", dont_inherit=True), ns)
         raw = ns["K"].__dict__["x"]
         is_prop = isinstance(raw, property) or type(raw).__name__ == "cached_property"
-        ok = isinstance(got, dict) and "x" in got and (got["x"]["kind"] == ("Attribute" if is_prop else "Function"))
         detail = f"`{dname}` alone: {got}"
+        if dname == "overloads without implementation":
+            ok = isinstance(got, dict) and "x" not in got and got.get("<pending overloads>") == {"x": [["x"], ["x", "y"]]}
+            ctx.ob("R5", f"definition|{dname}", ok, detail + "; expected no member and both signatures pending, in order", where(vf))
+            continue
+        ok = isinstance(got, dict) and "x" in got and (got["x"]["kind"] == ("Attribute" if is_prop else "Function")) and not got.get("<pending overloads>")
         if ok and not is_prop:
             fn = raw.__func__ if isinstance(raw, (staticmethod, classmethod)) else raw
             want = [(q.name, KIND_NAME[q.kind], q.default is not inspect.Parameter.empty) for q in inspect.signature(fn).parameters.values()]
             ok = got["x"]["parameters"] == want
             detail += f"; CPython binds {want}"
         if ok and is_prop:
-            ok = got["x"]["setter"] == (getattr(raw, "fset", None) is not None) and "property" in got["x"]["labels"]
+            ok = got["x"]["setter"] == (getattr(raw, "fset", None) is not None) and got["x"]["deleter"] == (getattr(raw, "fdel", None) is not None) \
+                and "property" in got["x"]["labels"]
+        if ok and dname == "annotated function":
+            sig = inspect.signature(raw)
+            want_ann = [(q.name, None if q.annotation is inspect.Parameter.empty else q.annotation, None if q.default is inspect.Parameter.empty else q.default)
+                        for q in sig.parameters.values()]
+            ok = got["x"]["annotations"] == want_ann and got["x"]["returns"] == sig.return_annotation
+            detail += f"; annotations/defaults {got['x']['annotations']} -> {got['x']['returns']}, source {want_ann} -> {sig.return_annotation}"
         if ok and "async" in dname:
             ok = "async" in got["x"]["labels"]
         if ok and dname == "overloaded":
             ok = got["x"]["overloads"] == [["x"], ["x"]]
+        if ok and dname == "overloaded (typing_extensions)":
+            ok = got["x"]["overloads"] == [["x"], ["x", "y"]]  # in declaration order
         ctx.ob("R5", f"definition|{dname}", ok, detail, where(vf))
     n = 0
     for (d1, t1), (d2, t2) in itertools.product(DEFS.items(), repeat=2):
@@ -341,7 +306,11 @@ def _definition_table(prog: Program, ctx: Ctx) -> None:
         n += 1
         want2 = alone[d2]["x"] if isinstance(alone[d2], dict) and "x" in alone[d2] else None
         want1 = alone[d1]["x"] if isinstance(alone[d1], dict) and "x" in alone[d1] else None
-        ok = isinstance(got, dict) and got.get("second") == want2 and got.get("first") == want1
+        pend = {}
+        for nm_, dn_ in (("first", d1), ("second", d2)):
+            if isinstance(alone[dn_], dict) and alone[dn_].get("<pending overloads>"):
+                pend[nm_] = alone[dn_]["<pending overloads>"]["x"]
+        ok = isinstance(got, dict) and got.get("second") == want2 and got.get("first") == want1 and got.get("<pending overloads>") == pend
         ctx.ob("R5", f"independent|{d1} then {d2}", ok,
                f"`{d2}` defined after `{d1}`: {got.get('second') if isinstance(got, dict) else got}; alone: {want2}" + ("" if ok else f" (first: {got.get('first') if isinstance(got, dict) else got}, alone {want1})"),
                where(vf))
